@@ -52,6 +52,12 @@ var fieldInventory = []fieldUse{
 	{"simple font /FirstChar /LastChar /Widths", "pdf-rich", "/FirstChar 32 /LastChar 34 /Widths"},
 	{"/Encoding /Differences", "pdf-rich", "/Differences [65 /A /B 128 /Euro]"},
 	{"/FontDescriptor numbers, /FontFile2 /Length1, TrueType tables", "pdf-ttf", "/Length1 "},
+	{"binary: sfnt offset table numTables; table directory records (checksum, offset, length)", "pdf-ttf", "bin:rec:cmap/offset"},
+	{"binary: head.unitsPerEm, hhea.numberOfHMetrics, hmtx advanceWidth/lsb", "pdf-ttf", "bin:hhea/numberOfHMetrics"},
+	{"binary: cmap header numTables, encoding records (platformID, encodingID, subtable offset), format-4 header (length, segCountX2) and endCode/startCode arrays", "pdf-ttf", "bin:cmapsub0/segCountX2"},
+	{"binary: xref stream entries (type, offset / objstm number, generation / index)", "pdf-xscont", "xref-data"},
+	{"binary: ZIP local / central / end records (sizes, offsets, counts, name lengths)", "docx", "bin:zip"},
+	{"binary NOT parsed by tabula (nothing to reach): CFF / Type1 font programs, PNG / JPEG / CCITT image data (returned undecoded or by parameters only)", "pdf-xobj", "/Subtype /Image"},
 	{"Type0: /DescendantFonts, CIDFont /DW /W (both forms), /CIDToGIDMap", "pdf-rich", "/W [1 [500 600] 10 12 700]"},
 	{"ToUnicode: codespacerange, bfchar count + entries", "pdf-cid", "beginbfchar"},
 	{"ToUnicode: bfrange count, range form and array form", "pdf-rich", "beginbfrange"},
@@ -301,6 +307,16 @@ func checkInventory(bis []*baseInfo) string {
 			panic("inventory: unknown base " + f.base)
 		}
 		found := bytes.Contains(bi.b.data, []byte(f.text))
+		if strings.HasPrefix(f.text, "bin:") { // a binary field: it must be among the enumerated field sites
+			found = f.text == "bin:zip" && bi.b.kind == "zip"
+			for _, p := range bi.parts {
+				for _, bf := range sfntFields(p.text) {
+					if "bin:"+bf.group+"/"+bf.name == f.text {
+						found = true
+					}
+				}
+			}
+		}
 		for _, p := range bi.parts {
 			if bytes.Contains(p.text, []byte(f.text)) || strings.Contains(p.name, f.text) {
 				found = true
